@@ -44,6 +44,8 @@ def gen(seed: int, tier: str) -> dict[str, Any]:
     t = 0.1
     for i in range(n):
         g = rng.choice(["zero", "tiny", "half", "near-", "eq", "near+", "far", "far"])
+        if g == "zero" and tgs and tgs[-1].get("iters"):
+            g = "tiny"      # a telegram placed some iterations into its instant stays the last one of that instant
         gap = {"zero": 0.0, "tiny": 0.001, "half": ref * 0.5, "near-": ref - 0.001, "eq": ref, "near+": ref + 0.001,
                "far": ref * 2.5 + 0.2}[g]
         if i:
@@ -55,6 +57,12 @@ def gen(seed: int, tier: str) -> dict[str, Any]:
         else:
             v = rng.choice([1, 1, 1, 0])
         tg = {"t": round(t, 6), "v": v, "g": g if i else "first"}
+        if g == "eq" and i:
+            # exactly one reset / context time after the previous telegram - the instant its timer expires - and 0..3 loop
+            # iterations into that instant (before / after the timer's own task has run and finished)
+            tg["iters"] = rng.choice([0, 0, 1, 2, 3])
+            # ... handed to the device directly (Device.process is public and synchronous) instead of through the telegram queue
+            tg["direct"] = rng.random() < 0.5
         if kind == "bs_reset" and v == 1 and rng.random() < 0.3:
             # an 'on' arriving as GroupValueResponse (answer to someone's read) is an 'on' telegram like any other: it
             # restarts a running timer, and after an automatic reset it switches the sensor on again
@@ -111,13 +119,32 @@ def run(plan: dict[str, Any]) -> dict[str, Any]:
         await xknx.start()
         t0 = loop.time()
 
-        def send(v, apci="write"):
+        def send(v, apci="write", direct=False):
             processed.append((loop.time(), v))
+            if direct:
+                from xknx.dpt import DPTBinary
+                from xknx.telegram import GroupAddress, Telegram
+                from xknx.telegram.apci import GroupValueResponse, GroupValueWrite
+                dev.process(Telegram(destination_address=GroupAddress(GA_S),
+                                     payload=(GroupValueResponse if apci == "response" else GroupValueWrite)(DPTBinary(v))))
+                return
             pdu = W.gv_response_small(v) if apci == "response" else W.gv_write_small(v)
             stub.deliver(W.cemi_ldata(W.L_DATA_IND, 0x1101, GA_S, tpci_apci=pdu), "tg")
 
+        ref_ = cfg["ctx"] if kind == "bs_counter" else cfg["reset"]
+        when_prev = None
         for tg in plan["ops"]:
-            loop.at(t0 + tg["t"], (lambda v=tg["v"], a=tg.get("apci", "write"): send(v, a)), label="tg")
+            when = t0 + tg["t"]
+            if tg.get("g") == "eq" and when_prev is not None:
+                when = when_prev + ref_      # the very float the library computes for its timer (time of the telegram + wait)
+            if when_prev is not None and when < when_prev:
+                when = when_prev
+            when_prev = when
+            if tg.get("iters"):
+                loop.at(when, (lambda v=tg["v"], a=tg.get("apci", "write"), k=tg["iters"], d=bool(tg.get("direct")):
+                               loop.soon_iters(k, lambda: send(v, a, d), label="tg")), label="tg")
+            else:
+                loop.at(when, (lambda v=tg["v"], a=tg.get("apci", "write"): send(v, a)), label="tg")
         def readd():
             xknx.devices.async_remove(dev)
             xknx.devices.async_add(dev)
